@@ -1056,7 +1056,7 @@ def run(ctx, seqs_override=None):
             streams.append(stream)
 
     chunk = len(seqs) if seqs_override is not None and len(seqs) <= 200 else ctx.n(20, 100)
-    per_file = ctx.n(25, 50)
+    per_file = ctx.n(19, 50)
     batch = 3000
 
     agg = {"gets": 0, "answered_heap": 0, "answered_list": 0, "ties": 0, "guard_fired": 0, "empty_errors": 0,
